@@ -19,6 +19,8 @@
 import Lc3V.Lemmas.SortedMap
 import Lc3V.Props.C21
 import Lc3V.Lemmas.LinkPatch
+import Lc3V.Lemmas.LinkRel
+import Lc3V.Lemmas.LinkOk
 set_option linter.unusedSimpArgs false
 namespace Lc3V.C20
 open Lc3V
@@ -268,8 +270,124 @@ theorem labels_order_independent (f g : Key × SymData → Key × SymData)
         rw [this, e1.1]
       · rw [za hae, zb hbe]
 
+
+theorem sortedKeys_pairwise_ne {α : Type} : ∀ (m : List (Nat × α)), SortedKeys m → m.Pairwise (fun x y => x.1 ≠ y.1) := by
+  intro m
+  induction m with
+  | nil => intro _; exact List.Pairwise.nil
+  | cons a rest ih =>
+    intro h
+    refine List.Pairwise.cons ?_ (ih h.tail)
+    intro b hb
+    have := h.head_lt b hb
+    omega
+
+/-- **`link a b` and `link b a` agree** (files with symbol tables, sorted block maps, tables with unique keys, externals at
+    address 0, relocation tables with one entry per address and no address in common — all true of assembled files whose
+    blocks do not overlap): both succeed or both fail in the block part; when both succeed they give the same block map
+    before patching, the same address and external flag for every label, the same pending relocation entries and the same
+    memory image cell by cell. -/
+theorem link_order_independent (a b rab rba : ObjFile) (ta tb : SymTab) (hsa : a.sym = some ta) (hsb : b.sym = some tb)
+    (hka : SortedKeys a.blocks) (hkb : SortedKeys b.blocks)
+    (hua : ta.labels.Pairwise (fun x y => (x.1 == y.1) = false)) (hub : tb.labels.Pairwise (fun x y => (x.1 == y.1) = false))
+    (hza : ∀ e ∈ ta.labels, e.2.ext = true → e.2.addr = 0) (hzb : ∀ e ∈ tb.labels, e.2.ext = true → e.2.addr = 0)
+    (hra : ta.rel.Pairwise (fun x y => x.1 ≠ y.1)) (hrb : tb.rel.Pairwise (fun x y => x.1 ≠ y.1))
+    (hdisj : ∀ x ∈ ta.rel, ∀ y ∈ tb.rel, x.1 ≠ y.1)
+    (hab : ObjFile.link a b = .ok rab) (hba : ObjFile.link b a = .ok rba) :
+    ∃ tab tba, rab.sym = some tab ∧ rba.sym = some tba ∧
+      (∀ K, (lookupKey tab.labels K).map core = (lookupKey tba.labels K).map core) ∧
+      (∀ r, r ∈ tab.rel ↔ r ∈ tba.rel) ∧
+      (∀ A, cell rab.blocks A = cell rba.blocks A) := by
+  unfold ObjFile.link at hab hba
+  rw [linkBlocks_comm b.blocks a.blocks hkb hka] at hba
+  cases hbl : linkBlocks a.blocks b.blocks with
+  | error e => rw [hbl] at hab; cases hab
+  | ok blocks =>
+    rw [hbl] at hab hba
+    rw [hsa, hsb] at hab hba
+    dsimp only at hab hba
+    have hsorted := linkBlocks_sorted a.blocks b.blocks blocks hka hbl
+    have hu := sortedKeys_pairwise_ne blocks hsorted
+    unfold linkSyms at hab hba
+    dsimp only at hab hba
+    cases h1 : tb.labels.foldlM (fun st e => linkLabel st (e.1, { e.2 with srcStart := satAdd e.2.srcStart (linkShift ta tb) }))
+        ⟨ta.labels, tb.rel.foldl (fun m e => relInsert m e.1 e.2) ta.rel, []⟩ with
+    | error e => rw [h1] at hab; cases hab
+    | ok sab =>
+      cases h2 : ta.labels.foldlM (fun st e => linkLabel st (e.1, { e.2 with srcStart := satAdd e.2.srcStart (linkShift tb ta) }))
+          ⟨tb.labels, ta.rel.foldl (fun m e => relInsert m e.1 e.2) tb.rel, []⟩ with
+      | error e => rw [h2] at hba; cases hba
+      | ok sba =>
+        rw [h1] at hab
+        rw [h2] at hba
+        cases hab; cases hba
+        obtain ⟨q1, _, q3⟩ := Lc3V.link_order_independent
+          (fun e => (e.1, { e.2 with srcStart := satAdd e.2.srcStart (linkShift ta tb) }))
+          (fun e => (e.1, { e.2 with srcStart := satAdd e.2.srcStart (linkShift tb ta) }))
+          (fun _ => ⟨rfl, rfl, rfl⟩) (fun _ => ⟨rfl, rfl, rfl⟩) ta.labels tb.labels hua hub ta.rel tb.rel hra hrb hdisj sab sba h1 h2 blocks hu
+        have q0 := labels_order_independent
+          (fun e => (e.1, { e.2 with srcStart := satAdd e.2.srcStart (linkShift ta tb) }))
+          (fun e => (e.1, { e.2 with srcStart := satAdd e.2.srcStart (linkShift tb ta) }))
+          (fun _ => ⟨rfl, rfl⟩) (fun _ => ⟨rfl, rfl⟩) ta.labels tb.labels hua hub hza hzb _ _ sab sba h1 h2
+        exact ⟨_, _, rfl, rfl, q0, q1, q3⟩
+
+
+
+/-- **when linking two files with symbol tables succeeds**: exactly when no block start occurs in both files, the union
+    of the blocks is pairwise disjoint, and no label is defined (non-external) in both files at different addresses -/
+theorem link_ok_iff (a b : ObjFile) (ta tb : SymTab) (hsa : a.sym = some ta) (hsb : b.sym = some tb)
+    (hka : SortedKeys a.blocks) (hkb : SortedKeys b.blocks)
+    (hub : tb.labels.Pairwise (fun x y => (x.1 == y.1) = false)) :
+    (∃ r, ObjFile.link a b = .ok r) ↔
+      (¬ CommonKey a.blocks b.blocks ∧ (insAll a.blocks b.blocks).Pairwise BlkBefore ∧
+       ∀ e ∈ tb.labels, ∀ ad, lookupKey ta.labels e.1 = some ad → ad.ext = false → e.2.ext = false → ad.addr = e.2.addr) := by
+  have hconf : ∀ e : Key × SymData, conflictIn ta.labels (e.1, { e.2 with srcStart := satAdd e.2.srcStart (linkShift ta tb) }) = false ↔
+      (∀ ad, lookupKey ta.labels e.1 = some ad → ad.ext = false → e.2.ext = false → ad.addr = e.2.addr) := by
+    intro e
+    unfold conflictIn
+    dsimp only
+    cases hl : lookupKey ta.labels e.1 with
+    | none => simp
+    | some ad =>
+      simp only [Option.some.injEq, forall_eq']
+      cases hae : ad.ext <;> cases hbe : e.2.ext <;> simp [hae, hbe]
+  have hfold := linkFold_ok_iff (fun e => (e.1, { e.2 with srcStart := satAdd e.2.srcStart (linkShift ta tb) })) (fun _ => rfl)
+    tb.labels ⟨ta.labels, tb.rel.foldl (fun m e => relInsert m e.1 e.2) ta.rel, []⟩ hub
+  constructor
+  · rintro ⟨r, h⟩
+    unfold ObjFile.link at h
+    cases hbl : linkBlocks a.blocks b.blocks with
+    | error e => rw [hbl] at h; cases h
+    | ok blocks =>
+      rw [hbl, hsa, hsb] at h
+      dsimp only at h
+      obtain ⟨c1, c2⟩ := (linkBlocks_ok_iff a.blocks b.blocks hka hkb).mp ⟨blocks, hbl⟩
+      refine ⟨c1, c2, ?_⟩
+      unfold linkSyms at h
+      dsimp only at h
+      cases hf : tb.labels.foldlM (fun st e => linkLabel st (e.1, { e.2 with srcStart := satAdd e.2.srcStart (linkShift ta tb) }))
+          ⟨ta.labels, tb.rel.foldl (fun m e => relInsert m e.1 e.2) ta.rel, []⟩ with
+      | error e => rw [hf] at h; cases h
+      | ok st =>
+        have := hfold.mp ⟨st, hf⟩
+        intro e he
+        exact (hconf e).mp (this e he)
+  · rintro ⟨c1, c2, c3⟩
+    obtain ⟨blocks, hbl⟩ := (linkBlocks_ok_iff a.blocks b.blocks hka hkb).mpr ⟨c1, c2⟩
+    obtain ⟨st, hf⟩ := hfold.mpr (fun e he => (hconf e).mpr (c3 e he))
+    refine ⟨⟨st.relocs.foldl (fun m r => patchWord m r.1 r.2) blocks, some ⟨st.labels, st.rel, linkDebug ta tb⟩⟩, ?_⟩
+    unfold ObjFile.link
+    rw [hbl, hsa, hsb]
+    dsimp only
+    unfold linkSyms
+    dsimp only
+    rw [hf]
+
+
 def obligations : List Lean.Name :=
-  [``labels_order_independent, ``Lc3V.linkFold_pointwise, ``adjacent_iff_pairwise, ``linkBlocks_ok_iff, ``linkBlocks_members, ``rangesOverlap_comm, ``Lc3V.mem_insAll, ``linkFold_dup, ``linkBlocks_comm, ``linkBlocks_sorted, ``C21.link_resolves, ``C21.patch_sets_word,
+  [``link_order_independent, ``link_ok_iff, ``Lc3V.link_order_independent, ``Lc3V.linkFold_rel, ``Lc3V.rel_order_independent, ``Lc3V.relocs_mem,
+   ``Lc3V.patched_image_of_set, ``Lc3V.linkFold_ok_iff,
+   ``labels_order_independent, ``Lc3V.linkFold_pointwise, ``adjacent_iff_pairwise, ``linkBlocks_ok_iff, ``linkBlocks_members, ``rangesOverlap_comm, ``Lc3V.mem_insAll, ``linkFold_dup, ``linkBlocks_comm, ``linkBlocks_sorted, ``C21.link_resolves, ``C21.patch_sets_word,
    ``Lc3V.mem_insertSortedBy, ``Lc3V.sorted_insertSortedBy, ``Lc3V.sorted_ext]
 
 end Lc3V.C20
